@@ -47,6 +47,7 @@ type profile struct {
 	pFault     float64 // faults "one": probability of a fault per run (default 0.5)
 	budget     int     // runs in the quick tier (default 780; thorough = 8 times as many)
 	pLate      float64 // per wait group: late status deliveries while the group completes and the consumer is slow (default 0.06)
+	noCorpus   bool    // check_all campaigns only (budget.go): the corpus was already run by an earlier profile of this process
 }
 
 var profiles = map[string]profile{
@@ -2007,8 +2008,12 @@ func runProfile(p profile, seed int64, tier, outDir string) (*emit.Summary, erro
 		}
 	}
 	t0 := time.Now()
-	c.corpus()
-	budget -= c.runs
+	if !p.noCorpus {
+		c.corpus()
+	}
+	if p.check == "" {
+		budget -= c.runs // registered checks: the corpus counts; check_all campaigns: budget = generated runs
+	}
 	for budget > 0 {
 		c.base(r, p, &budget)
 	}
